@@ -40,6 +40,10 @@ def run(ctx, focus='C11'):
             pws = ['anna', 'annan', 'nana', 'banana', 'bandana', 'anna', 'nan', 'ana', 'banana', 'bananas', 'ban', 'band', 'bands',
                    'sand', 'sands', 'and']
             ngram, mode, maxlen, asize = 3, 'wordlike', 21, 100
+        if i == 3:
+            # a transition smoothed to the highest level (10): seen once against tens of thousands of `a -> a`
+            pws = ['a' * 21] * 2750 + ['aab']
+            ngram, mode, maxlen, asize = 2, 'level-10-transition', 21, 100
         if i == 1 and ngram == 3:
             ngram = 4 if all(len(p_) >= 1 for p_ in pws) and any(len(p_) >= 4 for p_ in pws) else 2
         try:
